@@ -12,15 +12,15 @@ def showRat (r : Rat) : String := if r.den == 1 then s!"{r.num}" else s!"{r.num}
 open GF in
 def stepRPN (st : List G) (ws : List String) : List G :=
   match ws, st with
-  | "cs" :: rest, st => G.fn (listCoeff (rest.map parseRat)) :: st
+  | "cs" :: rest, st => leaf (rest.map parseRat) :: st
   | ["dup"], a :: st => a :: a :: st
   | ["add"], b :: a :: st => G.sum a b :: st
   | ["sub"], b :: a :: st => G.sum a (scale (-1) b) :: st
   | ["mul"], b :: a :: st => G.prod a b :: st
   | ["scale", c], a :: st => scale (parseRat c) a :: st
   | ["div", c], a :: st => scale (1 / parseRat c) a :: st
-  | ["addc", c], a :: st => G.sum a (G.fn (listCoeff [parseRat c])) :: st
-  | ["subc", c], a :: st => G.sum a (G.fn (listCoeff [parseRat c * -1])) :: st
+  | ["addc", c], a :: st => G.sum a (leaf [parseRat c]) :: st
+  | ["subc", c], a :: st => G.sum a (leaf [parseRat c * -1]) :: st
   | ["dx", k], a :: st => dx k.toNat! a :: st
   | _, st => st
 
